@@ -504,6 +504,8 @@ def load_targets():
         t["foreign_structs"].update(d.get("foreign_structs", {}))
         t["tuple_structs"] += [n for n in d.get("tuple_structs", []) if n not in t["tuple_structs"]]
         t["fns_from"] += [n for n in d.get("fns_from", []) if n not in t["fns_from"]]
+        if d.get("normalise"):      # (b1315, additive) plans of later blocks of the same area are added
+            t["normalise"] = dict(t.get("normalise") or {}); t["normalise"].update(d["normalise"])
     for t in TARGETS: add(t, "TARGETS")
     for path in sorted(glob.glob(os.path.join(HERE, "fn_targets", "*.json"))):
         try:
